@@ -33,7 +33,7 @@ fn seg_of(g: &mut Rng) -> Seg {
 
 /// A request with a body of the given kind: 0 = Content-Length, 1 = chunked
 fn body_request(g: &mut Rng, id: &str, len: usize, chunked: bool) -> (Req, Vec<u8>) {
-    let payload = token_body(&format!("q{}", id), len);
+    let payload = if g.chance(1, 2) { requestlike_body(len) } else { token_body(&format!("q{}", id), len) };
     let mut rq = Req::get(id);
     rq.method = "POST".into();
     if chunked {
@@ -50,13 +50,14 @@ fn body_request(g: &mut Rng, id: &str, len: usize, chunked: bool) -> (Req, Vec<u
 }
 
 fn consume_plan(g: &mut Rng, len: usize) -> BodyPlan {
-    match g.below(8) {
+    match g.below(9) {
         0 | 1 => BodyPlan::None,
         2 => BodyPlan::Touch(1),
-        3 => BodyPlan::Sizes(vec![1]),
-        4 => BodyPlan::Sizes(vec![len.saturating_sub(1).max(1)]),
-        5 => BodyPlan::Sizes(vec![len.max(1)]),
-        6 => BodyPlan::Sizes((0..g.usize(1, 4)).map(|_| g.usize(1, (len / 2).max(1))).collect()),
+        3 => BodyPlan::Exactly(1),
+        4 => BodyPlan::Exactly(len.saturating_sub(1).max(1)),
+        5 => BodyPlan::Exactly(len.max(1)),
+        6 => BodyPlan::Exactly(g.usize(1, len.max(1))),
+        7 => BodyPlan::Sizes((0..g.usize(1, 4)).map(|_| g.usize(1, (len / 2).max(1))).collect()),
         _ => BodyPlan::ToEof { buf: *g.pick(&[1usize, 64, 1024, 8192]) },
     }
 }
@@ -86,7 +87,7 @@ impl Campaign for C09c {
             let id = format!("c0r{}", r);
             if r == before {
                 let chunked = index % 2 == 1;
-                let lens: &[usize] = if tier == Tier::Thorough { &[1, 5, 1024, 1025, 5000, 70000] } else { &[1, 5, 1024, 1025, 5000, 20000] };
+                let lens: &[usize] = if tier == Tier::Thorough { &[1, 5, 1024, 1025, 5000, 65536 + 1024, 65537 + 1025, 70000, 200_000] } else { &[1, 5, 1024, 1025, 5000, 20000, 65537 + 1025, 140_000] };
                 let len = *g.pick(lens);
                 let (rq, _) = body_request(&mut g, &id, len, chunked);
                 msgs.push(rq.bytes());
@@ -138,6 +139,27 @@ impl Campaign for C09c {
                 detail: format!("{} (body plan {}): {}. blocked: {}", sc.note, plan, text, describe_blocked(main)),
             });
             break;
+        }
+        // the requests after the body arrive with exactly their own heads
+        if v.violations.is_empty() {
+            for m in e.msgs.iter().filter(|m| m.class == crate::httpmodel::Class::Valid) {
+                let id = m.id.clone().unwrap_or_default();
+                let head = out.obs.events.iter().find_map(|ev| match ev {
+                    Ev::Delivered { id: i, head, .. } if *i == id => Some(head.clone()),
+                    _ => None,
+                });
+                if let Some(h) = head {
+                    let d = head_diffs(&h, m);
+                    if !d.is_empty() {
+                        v.violations.push(Violation {
+                            clause: "C09.boundary".into(),
+                            signature: format!("{} {}", kind, if read_all { "read to its end" } else { "not read to its end" }),
+                            detail: format!("{} (body plan {}): request {} was delivered with a head that is not the one sent: {} (bytes of the preceding body were taken for part of it)", sc.note, plan, id, d.join("; ")),
+                        });
+                        break;
+                    }
+                }
+            }
         }
         v.nontrivial = !read_all;
         v.tags.push(kind.replace(' ', "_"));
@@ -393,7 +415,14 @@ impl Campaign for C18c {
                         // two-party deadlock: the client waits for 100 while the application waits for the body
                         let client_waiting = main.threads.iter().any(|t| t.0 == "client" && t.1.contains("ClientWait"));
                         let app_reading = main.threads.iter().any(|t| (t.0 == "handler" || t.0 == "receiver") && t.1.contains("NetRead"));
-                        if client_waiting && app_reading && asks {
+                        let was_delivered = delivered(&out.obs).iter().any(|d| d.0 == id);
+                        if client_waiting && !was_delivered {
+                            v.violations.push(Violation {
+                                clause: "C18.continue_sent".into(),
+                                signature: "an expecting request is not delivered until its body arrives, while the client waits for 100 Continue".into(),
+                                detail: format!("{}: the client sent the head with Expect: 100-continue and waits for the interim response; the request was never handed to the application (the server waits for the body first). blocked: {}", sc.note, describe_blocked(main)),
+                            });
+                        } else if client_waiting && app_reading && asks {
                             v.violations.push(Violation {
                                 clause: "C18.continue_sent".into(),
                                 signature: "client waits for 100 Continue while the application waits for the body".into(),
